@@ -358,6 +358,11 @@ Restart == /\ (\E x \in Handles : Live(x)) \/ (\E p \in Projects : memRead[p] \/
 AddStray(p, k) == /\ k \notin strays[p] /\ strays' = [strays EXCEPT ![p] = @ \cup {k}]
                   /\ UNCHANGED <<ws, cacheEx, cacheF, mem, memRead, h, glast, locks, tainted>> /\ Obs("stray", <<p, k>>, "ok")
 StrayKinds == {"id_backup", "hex31", "hex33", "upper"}
+MkDir(p, i) ==                   \* someone creates an empty directory named like an id (what an interrupted init() leaves behind)
+  /\ i \notin Dirs(p)
+  /\ ws' = [ws EXCEPT ![p] = PutF(@, i, Dir("missing", AnySp, NoDoc, NoFiles))]
+  /\ tainted' = tainted \cup {"empty-id-directory"}
+  /\ UNCHANGED <<cacheEx, cacheF, mem, memRead, strays, h, glast, locks>> /\ Obs("mkdir_empty", <<p, i>>, "ok")
 
 ---------------------------------------------------------------------------
 (* damage (done behind signac's back), check(), repair() *)
@@ -435,6 +440,7 @@ Next ==
   \/ On("delete_cache") /\ \E p \in Projects : DeleteCache(p)
   \/ On("restart")   /\ Restart
   \/ On("stray")     /\ \E p \in Projects, k \in StrayKinds : AddStray(p, k)
+  \/ On("mkdir_empty") /\ \E p \in Projects, i \in SP : MkDir(p, i)
   \/ On("corrupt")   /\ \E p \in Projects, i \in SP, k \in {"missing", "garbage"} : Corrupt(p, i, k)
   \/ On("corrupt_other") /\ \E p \in Projects, i \in SP, sp \in SP : CorruptOther(p, i, sp)
   \/ On("rename_dir") /\ \E p \in Projects, i \in SP, i2 \in SP : RenameDir(p, i, i2)
@@ -458,7 +464,7 @@ CheckPasses == \A p \in Projects : \A i \in Dirs(p) : Valid(p, i)
 \* ... except for the one known way to fail it: an operation through a handle opened by id, whose job was removed
 \* meanwhile, creates a directory without state point file before it raises JobsCorruptedError (later writes through
 \* other stale handles may then add a document to it)
-CheckPassesX == tainted \cap {"D3-leak", "stale-id-handle-mkdir"} # {} \/ CheckPasses
+CheckPassesX == tainted \cap {"D3-leak", "stale-id-handle-mkdir", "empty-id-directory"} # {} \/ CheckPasses
 (* C02 *)
 Lazy        == [][last'.op \in {"open_sp", "open_id", "open_iter"} => UNCHANGED <<ws, cacheEx, cacheF>>]_vars
 PersistExact == [][(last'.op = "init" /\ last'.res = "ok") => \E x \in Handles : last'.args = <<x>> /\ ValidIn(ws', h'[x].proj, h'[x].id)]_vars
